@@ -236,7 +236,7 @@ theorem tooHigh_false {a : Auction} {amt cap : Int} (h : tooHigh a amt cap = fal
 theorem bid_accepted {s s' : State} {who : Acct} {app mapping id : Nat} {denom : Denom} {amt : Int}
     (h : bidStep s who app mapping id denom amt = some s') :
     ∃ a a' payIn, findAuc s.live id = some a ∧ accept s a who a' payIn = some s' ∧ Upd a a' who payIn amt ∧
-      denom = (if a.kind.increasing then a.payDenom else a.lotDenom) := by
+      denom = (if a.kind.increasing then a.payDenom else a.lotDenom) ∧ (a.kind = .debtV2 → 0 < amt) ∧ a.kind ≠ .debtV1 := by
   unfold bidStep at h
   split at h
   · simp at h
@@ -255,7 +255,8 @@ theorem bid_accepted {s s' : State} {who : Acct} {app mapping id : Nat} {denom :
               refine ⟨a, _, _, ha, h, ⟨rfl, hk.symm, rfl, rfl, rfl, rfl, ?_, ?_⟩, ?_⟩
               · intro _; exact ⟨rfl, rfl, tooLow_false (by simpa using hl)⟩
               · intro hi; simp [hk, Kind.increasing] at hi
-              · simp only [hk, Kind.increasing, if_true]; simpa using hd
+              · refine ⟨?_, by intro c; simp [hk] at c, by simp [hk]⟩
+                simp only [hk, Kind.increasing, if_true]; simpa using hd
       · simp at h
       · -- surplusV2
         split at h
@@ -268,7 +269,8 @@ theorem bid_accepted {s s' : State} {who : Acct} {app mapping id : Nat} {denom :
               refine ⟨a, _, _, ha, h, ⟨rfl, hk.symm, rfl, rfl, rfl, rfl, ?_, ?_⟩, ?_⟩
               · intro _; exact ⟨rfl, rfl, tooLow_false (by simpa using hl)⟩
               · intro hi; simp [hk, Kind.increasing] at hi
-              · simp only [hk, Kind.increasing, if_true]; simpa using hd
+              · refine ⟨?_, by intro c; simp [hk] at c, by simp [hk]⟩
+                simp only [hk, Kind.increasing, if_true]; simpa using hd
       · -- debtV2
         split at h
         · simp at h
@@ -276,16 +278,17 @@ theorem bid_accepted {s s' : State} {who : Acct} {app mapping id : Nat} {denom :
           · simp at h
           · split at h
             · simp at h
-            · rename_i hd hl
+            · rename_i hpos hd hl
               refine ⟨a, _, _, ha, h, ⟨rfl, hk.symm, rfl, rfl, rfl, rfl, ?_, ?_⟩, ?_⟩
               · intro hi; simp [hk, Kind.increasing] at hi
               · intro _; exact ⟨rfl, rfl, tooHigh_false (by simpa using hl)⟩
-              · simp only [hk, Kind.increasing]; simpa using hd
+              · refine ⟨?_, fun _ => by omega, by simp [hk]⟩
+                simp only [hk, Kind.increasing]; simpa using hd
 
 theorem dbid_accepted {s s' : State} {who : Acct} {app mapping id : Nat} {denom : Denom} {amt : Int}
     {ed : Denom} {ea : Int} (h : dbidStep s who app mapping id denom amt ed ea = some s') :
     ∃ a a' payIn, findAuc s.live id = some a ∧ accept s a who a' payIn = some s' ∧ Upd a a' who payIn amt ∧
-      a.kind = .debtV1 ∧ denom = a.lotDenom ∧ ed = a.payDenom ∧ ea = a.pay := by
+      a.kind = .debtV1 ∧ denom = a.lotDenom ∧ ed = a.payDenom ∧ ea = a.pay ∧ (∀ fl, s.debtFloor = some fl → fl ≤ amt) := by
   unfold dbidStep at h
   split at h
   · simp at h
@@ -295,46 +298,119 @@ theorem dbid_accepted {s s' : State} {who : Acct} {app mapping id : Nat} {denom 
     · cases hk : a.kind <;> simp only [hk] at h <;> try (simp at h; done)
       split at h
       · simp at h
-      · split at h
+      · rename_i hfl
+        split at h
         · simp at h
         · split at h
           · simp at h
           · split at h
             · simp at h
-            · rename_i h1 h2 h3 hl
-              refine ⟨a, _, _, ha, h, ⟨rfl, hk.symm, rfl, rfl, rfl, rfl, ?_, ?_⟩, hk, ?_, ?_, ?_⟩
-              · intro hi; simp [hk, Kind.increasing] at hi
-              · intro _; exact ⟨rfl, rfl, tooHigh_false (by simpa using hl)⟩
-              · simpa using h3
-              · simpa using h1
-              · simpa using h2
-
+            · split at h
+              · simp at h
+              · rename_i h1 h2 h3 hl
+                refine ⟨a, _, _, ha, h, ⟨rfl, hk.symm, rfl, rfl, rfl, rfl, ?_, ?_⟩, hk, ?_, ?_, ?_, ?_⟩
+                · intro hi; simp [hk, Kind.increasing] at hi
+                · intro _; exact ⟨rfl, rfl, tooHigh_false (by simpa using hl)⟩
+                · simpa using h3
+                · simpa using h1
+                · simpa using h2
+                · intro fl hf
+                  unfold belowFloor at hfl
+                  simp only [hf, decide_eq_true_eq] at hfl
+                  omega
 
 /-! ## the block hook -/
 
 theorem settle_spec {s s' : State} {id : Nat} (h : settleStep s id = some s') :
-    ∃ a, findAuc s.live id = some a ∧ due s.now a = true ∧
-      ((a.bidder = none ∧ s' = { s with live := setAuc s.live (restartRec s.now a) }) ∨
-       (∃ w b, a.bidder = some w ∧ closeBank s a w = some b ∧
-          s' = { s with bank := b, live := delAuc s.live id, closed := a :: s.closed })) := by
+    ∃ a, findAuc s.live id = some a ∧
+      ((emergency s a = true ∧ ∃ b, esmBank s a = some b ∧ s' = { s with bank := b, live := delAuc s.live id }) ∨
+       (emergency s a = false ∧ due s.now a = true ∧
+        ((a.bidder = none ∧ s' = { s with live := setAuc s.live (restartRec s.now a) }) ∨
+         (∃ w b, a.bidder = some w ∧ closeBank s a w = some b ∧
+            s' = { s with bank := b, live := delAuc s.live id, closed := a :: s.closed })))) := by
   unfold settleStep at h
   split at h
   · simp at h
   · rename_i a ha
+    refine ⟨a, ha, ?_⟩
     split at h
-    · simp at h
-    · rename_i hd
-      refine ⟨a, ha, by simpa using hd, ?_⟩
+    · rename_i he
       split at h
-      · rename_i hb
+      · simp at h
+      · rename_i b hb
         simp only [Option.some.injEq] at h
-        exact Or.inl ⟨hb, h.symm⟩
-      · rename_i w hb
+        exact Or.inl ⟨he, b, hb, h.symm⟩
+    · rename_i he
+      split at h
+      · simp at h
+      · rename_i hd
+        refine Or.inr ⟨by simpa using he, by simpa using hd, ?_⟩
         split at h
-        · simp at h
-        · rename_i b hc
+        · rename_i hb
           simp only [Option.some.injEq] at h
-          exact Or.inr ⟨w, b, hb, hc, h.symm⟩
+          exact Or.inl ⟨hb, h.symm⟩
+        · rename_i w hb
+          split at h
+          · simp at h
+          · rename_i b hc
+            simp only [Option.some.injEq] at h
+            exact Or.inr ⟨w, b, hb, hc, h.symm⟩
+
+/-- emergency close: outside custody and collector only the standing bidder moves, by exactly its stake -/
+theorem esmBank_user {s : State} {a : Auction} {b : Bank} (h : esmBank s a = some b)
+    (y : Acct) (e : Denom) (hy1 : y ≠ s.cust) (hy2 : y ≠ s.coll) :
+    bal b y e = bal s.bank y e + (if a.bidder = some y ∧ a.payDenom = e then a.pay else 0) := by
+  have h1 : ¬ s.cust = y := fun c => hy1 c.symm
+  have h2 : ¬ s.coll = y := fun c => hy2 c.symm
+  unfold esmBank at h
+  cases hk : a.kind <;> simp only [hk] at h
+  · cases hb : a.bidder with
+    | none => simp only [hb] at h; rw [send_bal h]; simp [h1, h2]
+    | some w =>
+      simp only [hb] at h
+      split at h
+      · simp at h
+      · rename_i b1 hb1
+        rw [send_bal h, send_bal hb1]
+        by_cases hw : w = y <;> simp [h1, h2, hw]
+  · cases hb : a.bidder with
+    | none => simp only [hb, Option.some.injEq] at h; subst h; simp
+    | some w =>
+      simp only [hb] at h
+      rw [send_bal h]
+      by_cases hw : w = y <;> simp [h1, hw]
+  · simp at h
+  · simp at h
+
+/-- emergency close: the custody gives up exactly what it held for this auction -/
+theorem esmBank_cust {s : State} {a : Auction} {b : Bank} (h : esmBank s a = some b)
+    (hw : a.bidder ≠ some s.cust) (hc : s.cust ≠ s.coll) (e : Denom) :
+    bal b s.cust e = bal s.bank s.cust e - held e a := by
+  have hc' : ¬ s.coll = s.cust := fun c => hc c.symm
+  unfold esmBank at h
+  unfold held
+  cases hk : a.kind <;> simp only [hk] at h
+  · cases hb : a.bidder with
+    | none =>
+      simp only [hb] at h; rw [send_bal h]
+      by_cases h2 : a.lotDenom = e <;> simp [h2, hc']
+    | some w =>
+      have hw' : ¬ w = s.cust := fun c => hw (by rw [hb, c])
+      simp only [hb] at h
+      split at h
+      · simp at h
+      · rename_i b1 hb1
+        rw [send_bal h, send_bal hb1]
+        by_cases h1 : a.payDenom = e <;> by_cases h2 : a.lotDenom = e <;> simp [h1, h2, hw', hc'] <;> omega
+  · cases hb : a.bidder with
+    | none => simp only [hb, Option.some.injEq] at h; subst h; simp
+    | some w =>
+      have hw' : ¬ w = s.cust := fun c => hw (by rw [hb, c])
+      simp only [hb] at h
+      rw [send_bal h]
+      by_cases h1 : a.payDenom = e <;> simp [h1, hw']
+  · simp at h
+  · simp at h
 
 /-- at close, an account that is neither the custody nor the collector changes only if it is the winner,
 and then by exactly the lot -/
@@ -418,35 +494,37 @@ theorem start_spec {s s' : State} {a : Auction} (h : startStep s a = some s') :
   · rename_i hb
     split at h
     · simp at h
-    · have hb' : a.bidder = none := by
-        cases hbb : a.bidder with
-        | none => rfl
-        | some p => simp [hbb] at hb
-      cases hk : a.kind <;> simp only [hk] at h
-      · split at h
-        · simp at h
-        · rename_i b h1
-          simp only [Option.some.injEq] at h
+    · split at h
+      · simp at h
+      · have hb' : a.bidder = none := by
+          cases hbb : a.bidder with
+          | none => rfl
+          | some p => simp [hbb] at hb
+        cases hk : a.kind <;> simp only [hk] at h
+        · split at h
+          · simp at h
+          · rename_i b h1
+            simp only [Option.some.injEq] at h
+            subst h
+            refine ⟨hb', rfl, rfl, rfl, rfl, rfl, ?_⟩
+            intro y e
+            rw [send_bal h1]
+            simp
+        · simp only [Option.some.injEq] at h
           subst h
-          refine ⟨hb', rfl, rfl, rfl, rfl, rfl, ?_⟩
-          intro y e
-          rw [send_bal h1]
-          simp
-      · simp only [Option.some.injEq] at h
-        subst h
-        exact ⟨hb', rfl, rfl, rfl, rfl, rfl, by intro y e; simp⟩
-      · split at h
-        · simp at h
-        · rename_i b h1
-          simp only [Option.some.injEq] at h
+          exact ⟨hb', rfl, rfl, rfl, rfl, rfl, by intro y e; simp⟩
+        · split at h
+          · simp at h
+          · rename_i b h1
+            simp only [Option.some.injEq] at h
+            subst h
+            refine ⟨hb', rfl, rfl, rfl, rfl, rfl, ?_⟩
+            intro y e
+            rw [sendAway_bal h1]
+            simp
+        · simp only [Option.some.injEq] at h
           subst h
-          refine ⟨hb', rfl, rfl, rfl, rfl, rfl, ?_⟩
-          intro y e
-          rw [sendAway_bal h1]
-          simp
-      · simp only [Option.some.injEq] at h
-        subst h
-        exact ⟨hb', rfl, rfl, rfl, rfl, rfl, by intro y e; simp⟩
+          exact ⟨hb', rfl, rfl, rfl, rfl, rfl, by intro y e; simp⟩
 
 /-! ## invariants, one step at a time -/
 
@@ -546,8 +624,10 @@ theorem step_frame {s s' : State} {op : Op} (h : step s op = some s') : s'.cust 
     · simp at h
     · simp only [Option.some.injEq] at h; subst h; exact ⟨rfl, rfl⟩
   | settle id =>
-    obtain ⟨a, _, _, hr⟩ := settle_spec h
-    rcases hr with ⟨_, hs⟩ | ⟨w, b, _, _, hs⟩ <;> subst hs <;> exact ⟨rfl, rfl⟩
+    obtain ⟨a, _, hr⟩ := settle_spec h
+    rcases hr with ⟨_, b, _, hs⟩ | ⟨_, _, ⟨_, hs⟩ | ⟨w, b, _, _, hs⟩⟩ <;> subst hs <;> exact ⟨rfl, rfl⟩
+  | esm on =>
+    simp only [step, Option.some.injEq] at h; subst h; exact ⟨rfl, rfl⟩
 
 theorem step_good {s s' : State} {op : Op} (h : step s op = some s') (g : Good s) (so : SenderOk s op) :
     Good s' := by
@@ -573,8 +653,10 @@ theorem step_good {s s' : State} {op : Op} (h : step s op = some s') (g : Good s
     · simp at h
     · simp only [Option.some.injEq] at h; subst h; exact g
   | settle id =>
-    obtain ⟨a, hf, _, hr⟩ := settle_spec h
-    rcases hr with ⟨hb, hs⟩ | ⟨w, b, _, _, hs⟩
+    obtain ⟨a, hf, hr⟩ := settle_spec h
+    rcases hr with ⟨_, b, _, hs⟩ | ⟨_, _, ⟨hb, hs⟩ | ⟨w, b, _, _, hs⟩⟩
+    · subst hs
+      exact ⟨g.1, fun b hbm => g.2 b (mem_delAuc hbm)⟩
     · subst hs
       refine ⟨g.1, ?_⟩
       intro b hbm
@@ -586,6 +668,8 @@ theorem step_good {s s' : State} {op : Op} (h : step s op = some s') (g : Good s
         rw [this, hb]; simp
     · subst hs
       exact ⟨g.1, fun b hbm => g.2 b (mem_delAuc hbm)⟩
+  | esm on =>
+    simp only [step, Option.some.injEq] at h; subst h; exact g
 
 theorem restart_held (now : Int) (a : Auction) (hb : a.bidder = none) (d : Denom) :
     held d (restartRec now a) = held d a := by
@@ -624,9 +708,14 @@ theorem step_custGap {s s' : State} {op : Op} (h : step s op = some s') (g : Goo
     · simp at h
     · simp only [Option.some.injEq] at h; subst h; rfl
   | settle id =>
-    obtain ⟨a, hf, _, hr⟩ := settle_spec h
+    obtain ⟨a, hf, hr⟩ := settle_spec h
     have hm := findAuc_mem hf
-    rcases hr with ⟨hb, hs⟩ | ⟨w, b, hb, hcb, hs⟩
+    rcases hr with ⟨_, b, heb, hs⟩ | ⟨_, _, ⟨hb, hs⟩ | ⟨w, b, hb, hcb, hs⟩⟩
+    · subst hs
+      unfold custGap
+      simp only
+      rw [sumBy_delAuc _ _ _ _ hf, esmBank_cust heb (g.2 a hm.1) g.1]
+      omega
     · subst hs
       unfold custGap
       simp only
@@ -640,6 +729,8 @@ theorem step_custGap {s s' : State} {op : Op} (h : step s op = some s') (g : Goo
       unfold held
       simp only [hb, Option.isSome_some, true_and]
       omega
+  | esm on =>
+    simp only [step, Option.some.injEq] at h; subst h; rfl
 
 theorem step_userNet {s s' : State} {op : Op} (h : step s op = some s') (x : Acct)
     (hx1 : x ≠ s.cust) (hx2 : x ≠ s.coll) (d : Denom) : userNet s' x d = userNet s x d := by
@@ -664,10 +755,18 @@ theorem step_userNet {s s' : State} {op : Op} (h : step s op = some s') (x : Acc
     split at h
     · simp at h
     · simp only [Option.some.injEq] at h; subst h; rfl
+  | esm on =>
+    simp only [step, Option.some.injEq] at h; subst h; rfl
   | settle id =>
-    obtain ⟨a, hf, _, hr⟩ := settle_spec h
+    obtain ⟨a, hf, hr⟩ := settle_spec h
     have hm := findAuc_mem hf
-    rcases hr with ⟨hb, hs⟩ | ⟨w, b, hb, hcb, hs⟩
+    rcases hr with ⟨_, b, heb, hs⟩ | ⟨_, _, ⟨hb, hs⟩ | ⟨w, b, hb, hcb, hs⟩⟩
+    · subst hs
+      unfold userNet
+      simp only
+      rw [sumBy_delAuc _ _ _ _ hf, esmBank_user heb x d hx1 hx2]
+      unfold stakeOf
+      omega
     · subst hs
       unfold userNet
       simp only
@@ -775,9 +874,12 @@ theorem closed_have_winner (s : State) (ops : List Op) (h0 : ∀ c ∈ s.closed,
         split at h
         · simp at h
         · simp only [Option.some.injEq] at h; rw [← h]; exact h0
+      | esm on =>
+        simp only [step, Option.some.injEq] at h; rw [← h]; exact h0
       | settle id =>
-        obtain ⟨a, _, _, hr⟩ := settle_spec h
-        rcases hr with ⟨_, hs⟩ | ⟨w, b, hb, _, hs⟩
+        obtain ⟨a, _, hr⟩ := settle_spec h
+        rcases hr with ⟨_, b, _, hs⟩ | ⟨_, _, ⟨_, hs⟩ | ⟨w, b, hb, _, hs⟩⟩
+        · rw [hs]; exact h0
         · rw [hs]; exact h0
         · rw [hs]
           intro c hc
@@ -793,5 +895,124 @@ theorem blockOps_no_sender (s : State) (now : Int) (cust : Acct) : UsersOnly cus
   · subst hop; simp [Op.sender?] at hw
   · obtain ⟨a, _, rfl⟩ := List.mem_map.mp hop
     simp [Op.sender?] at hw
+
+
+/-! ## debt lots stay non-negative once `ValidateBasic` refuses negative bids -/
+
+theorem ceilChange_nonneg (f : Dec) (x : Int) (hf : 0 ≤ f) (hx : 0 ≤ x) : 0 ≤ ceilChange f x := by
+  have h1 := ceilChange_mul_ge f x
+  have h2 : 0 ≤ f * x := Int.mul_nonneg hf hx
+  have h3 : 0 ≤ ceilChange f x * Dec.P := Int.le_trans h2 h1
+  have hP : Dec.P = 1000000000000000000 := rfl
+  rw [hP] at h3
+  omega
+
+theorem accept_flags {s s' : State} {a a' : Auction} {who : Acct} {payIn : Int}
+    (h : accept s a who a' payIn = some s') : s'.debtFloor = s.debtFloor ∧ s'.esm = s.esm := by
+  unfold accept at h
+  split at h
+  · simp at h
+  · split at h
+    · simp only [Option.some.injEq] at h; subst h; exact ⟨rfl, rfl⟩
+    · split at h
+      · simp at h
+      · simp only [Option.some.injEq] at h; subst h; exact ⟨rfl, rfl⟩
+
+theorem start_flags {s s' : State} {a : Auction} (h : startStep s a = some s') :
+    s'.debtFloor = s.debtFloor ∧ s'.esm = s.esm := by
+  unfold startStep at h
+  split at h
+  · simp at h
+  · split at h
+    · simp at h
+    · split at h
+      · simp at h
+      · cases hk : a.kind <;> simp only [hk] at h
+        · split at h
+          · simp at h
+          · simp only [Option.some.injEq] at h; subst h; exact ⟨rfl, rfl⟩
+        · simp only [Option.some.injEq] at h; subst h; exact ⟨rfl, rfl⟩
+        · split at h
+          · simp at h
+          · simp only [Option.some.injEq] at h; subst h; exact ⟨rfl, rfl⟩
+        · simp only [Option.some.injEq] at h; subst h; exact ⟨rfl, rfl⟩
+
+/-- every decreasing-bid auction has a non-negative standing lot -/
+def LotsOk (s : State) : Prop := ∀ a ∈ s.live, a.kind.increasing = false → 0 ≤ a.lot
+
+theorem step_lotsOk {s s' : State} {op : Op} (h : step s op = some s') (hl : LotsOk s)
+    (fl : Int) (hfl : s.debtFloor = some fl) (h0 : 0 ≤ fl) (hst : ∀ a, op = .start a → 0 ≤ a.lot) :
+    LotsOk s' ∧ s'.debtFloor = s.debtFloor := by
+  cases op with
+  | start a =>
+    obtain ⟨_, hlive, _⟩ := start_spec h
+    refine ⟨?_, ?_⟩
+    · intro b hb hk
+      rw [hlive] at hb
+      rcases List.mem_cons.mp hb with hb | hb
+      · subst hb; exact hst _ rfl
+      · exact hl b hb hk
+    · exact (start_flags h).1
+  | bid who app mapping id denom amt =>
+    obtain ⟨a, a', p, hf, ha, u, _, hpos, hne⟩ := bid_accepted h
+    obtain ⟨_, _, _, _, hlive, _, _⟩ := accept_spec ha
+    refine ⟨?_, (accept_flags ha).1⟩
+    intro b hb hk
+    rw [hlive] at hb
+    rcases mem_setAuc hb with hb | hb
+    · exact hl b hb hk
+    · subst hb
+      rw [u.kind] at hk
+      have hk2 : a.kind = .debtV2 := by
+        cases hkk : a.kind <;> simp [hkk, Kind.increasing] at hk hne ⊢
+      rw [(u.dec hk).2.1]
+      have := hpos hk2
+      omega
+  | dbid who app mapping id denom amt ed ea =>
+    obtain ⟨a, a', p, hf, ha, u, hk1, _, _, _, hfloor⟩ := dbid_accepted h
+    obtain ⟨_, _, _, _, hlive, _, _⟩ := accept_spec ha
+    refine ⟨?_, (accept_flags ha).1⟩
+    intro b hb hk
+    rw [hlive] at hb
+    rcases mem_setAuc hb with hb | hb
+    · exact hl b hb hk
+    · subst hb
+      rw [u.kind] at hk
+      rw [(u.dec hk).2.1]
+      have := hfloor fl hfl
+      omega
+  | tick now =>
+    simp only [step] at h
+    split at h
+    · simp at h
+    · simp only [Option.some.injEq] at h; subst h; exact ⟨hl, rfl⟩
+  | esm on =>
+    simp only [step, Option.some.injEq] at h; subst h; exact ⟨hl, rfl⟩
+  | settle id =>
+    obtain ⟨a, hf, hr⟩ := settle_spec h
+    have hm := findAuc_mem hf
+    rcases hr with ⟨_, b, _, hs⟩ | ⟨_, _, ⟨_, hs⟩ | ⟨w, b, _, _, hs⟩⟩
+    · subst hs; exact ⟨fun b hb hk => hl b (mem_delAuc hb) hk, rfl⟩
+    · subst hs
+      refine ⟨?_, rfl⟩
+      intro b hb hk
+      rcases mem_setAuc hb with hb | hb
+      · exact hl b hb hk
+      · subst hb
+        have h1 : (restartRec s.now a).lot = a.lot := by unfold restartRec; cases a.kind <;> rfl
+        have h2 : (restartRec s.now a).kind = a.kind := by unfold restartRec; cases a.kind <;> rfl
+        rw [h1]; rw [h2] at hk; exact hl a hm.1 hk
+    · subst hs; exact ⟨fun b hb hk => hl b (mem_delAuc hb) hk, rfl⟩
+
+theorem run_lotsOk (s : State) (ops : List Op) (hl : LotsOk s) (fl : Int) (hfl : s.debtFloor = some fl) (h0 : 0 ≤ fl)
+    (hst : ∀ op ∈ ops, ∀ a, op = .start a → 0 ≤ a.lot) : LotsOk (run s ops) := by
+  induction ops generalizing s with
+  | nil => exact hl
+  | cons op ops ih =>
+    simp only [run, List.foldl_cons]
+    rcases apply_cases s op with h | ⟨_, h⟩
+    · obtain ⟨h1, h2⟩ := step_lotsOk h hl fl hfl h0 (hst op (by simp))
+      exact ih (apply s op) h1 (by rw [h2]; exact hfl) (fun o ho => hst o (by simp [ho]))
+    · rw [h]; exact ih s hl hfl (fun o ho => hst o (by simp [ho]))
 
 end Comdex.English
